@@ -156,7 +156,7 @@ pub fn cost_strategy(thorough: bool) -> BoxedStrategy<CostCase> {
         1 => Just(CBulk::FromVec),
         1 => Just(CBulk::FromIter),
         1 => Just(CBulk::FromIterUnknown),
-        2 => (0u8..8).prop_map(CBulk::Append),
+        2 => (0u8..12).prop_map(CBulk::Append),
         1 => Just(CBulk::Retain),
         1 => Just(CBulk::RetainMut),
         1 => Just(CBulk::IterMutDrop),
@@ -311,6 +311,27 @@ fn cost_run<Q: Queue + 'static>(c: &CostCase, stats: &mut Stats, maxima: Option<
                 let g = cmp_count();
                 drop(r);
                 ("from_iter", g, n)
+            }
+            CBulk::Append(k) if k >= 8 => {
+                // a receiver that holds a handful of elements but has the room of a big queue (it was big
+                // and has been popped down, or it was created with the capacity), and a big donor whose
+                // priorities ascend in slot order and dominate
+                let m = n.max(8);
+                if k % 2 == 0 {
+                    while q.len() > 5 {
+                        q.pop_max();
+                    }
+                } else {
+                    q = Q::construct(CtorHow::WithCapacityAndDefaultHasher(2 * m + 8), HasherKind::Xx);
+                    for i in 0..(k as usize % 7) {
+                        q.push(Key::new((9 * m + i) as u32, 0), Prio::new(i as i64));
+                    }
+                }
+                let mut other = Q::from_vec((0..m).map(|i| (Key::new((m + 7 + i) as u32, 2), Prio::new((1 << 30) + i as i64))).collect());
+                reset_cmp_count();
+                q.append(&mut other);
+                let g = cmp_count();
+                ("append", g, q.len())
             }
             CBulk::Append(k) => {
                 let m = match k % 4 {
